@@ -32,6 +32,7 @@ import (
 	"github.com/refraction-networking/conjure/pkg/station/log"
 	"github.com/refraction-networking/conjure/pkg/transports"
 	pb "github.com/refraction-networking/conjure/proto"
+	"google.golang.org/protobuf/proto"
 	"google.golang.org/protobuf/types/known/anypb"
 	"pgregory.net/rapid"
 	"verif/harness/vh"
@@ -264,9 +265,63 @@ type c06Out struct {
 	Served   []c06Query
 }
 
+// c06Meta is the part of a registration message that is not the covert: where the registration came
+// from and the client's flags. None of it may change which covert the station is willing to dial.
+type c06Meta struct {
+	Source      string `json:"source,omitempty"` // name of the pb.RegistrationSource value; "" = API
+	Prescanned  bool   `json:"prescanned,omitempty"`
+	ProxyHeader bool   `json:"proxy_header,omitempty"`
+	UploadOnly  bool   `json:"upload_only,omitempty"`
+	DarkDecoy   bool   `json:"dark_decoy,omitempty"`
+	UseTIL      bool   `json:"use_til,omitempty"`
+}
+
+func (m c06Meta) source() (pb.RegistrationSource, bool) {
+	if m.Source == "" {
+		return pb.RegistrationSource_API, true
+	}
+	v, ok := pb.RegistrationSource_value[m.Source]
+	return pb.RegistrationSource(v), ok
+}
+
+func (m c06Meta) classes() []string {
+	src, _ := m.source()
+	out := []string{"src:" + src.String()}
+	if m.Prescanned {
+		out = append(out, "flag:prescanned")
+		if src == pb.RegistrationSource_DetectorPrescan {
+			// the shape another station's GenerateC2SWrapper / share-over-API produces
+			out = append(out, "ingest:shared-by-peer-station")
+		}
+	}
+	if m.ProxyHeader {
+		out = append(out, "flag:proxy-header")
+	}
+	return out
+}
+
+var c06Sources = []string{"API", "API", "Detector", "Detector", "DetectorPrescan", "DetectorPrescan", "DetectorPrescan", "BidirectionalAPI", "DNS", "BidirectionalDNS", "Unspecified"}
+
+func c06GenMeta(rt *rapid.T) c06Meta {
+	return c06Meta{
+		Source:      rapid.SampledFrom(c06Sources).Draw(rt, "source"),
+		Prescanned:  rapid.Bool().Draw(rt, "prescanned"),
+		ProxyHeader: rapid.IntRange(0, 4).Draw(rt, "proxyhdr") == 0,
+		UploadOnly:  rapid.IntRange(0, 4).Draw(rt, "uploadonly") == 0,
+		DarkDecoy:   rapid.IntRange(0, 4).Draw(rt, "darkdecoy") == 0,
+		UseTIL:      rapid.IntRange(0, 4).Draw(rt, "usetil") == 0,
+	}
+}
+
 // c06Session ingests 1-2 registrations of one client secret under the configuration cfg that is in
 // force in x.e.rm (the caller installed it), then lets the covert be dialled and judges everything.
-func c06Session(x *c06IngestEnv, cfg c06Cfg, tmpls []string, v6 bool, secret int, connecting bool, prior []c06Query) (o c06Out) {
+func c06Session(x *c06IngestEnv, cfg c06Cfg, tmpls []string, v6 bool, secret int, connecting bool, meta c06Meta, prior []c06Query) (o c06Out) {
+	src, okSrc := meta.source()
+	if !okSrc {
+		o.Harness = fmt.Sprintf("unknown registration source %q", meta.Source)
+		return
+	}
+	o.Classes = append(o.Classes, meta.classes()...)
 	e, d, ls := x.e, x.d, x.ls
 	port := fmt.Sprint(ls.port)
 	if _, hp := ls.drain(); hp != "" {
@@ -291,7 +346,9 @@ func c06Session(x *c06IngestEnv, cfg c06Cfg, tmpls []string, v6 bool, secret int
 	var subs []sub
 	for _, tmpl := range tmpls {
 		covert := strings.ReplaceAll(tmpl, "{P}", port)
-		w := vWrapper(vSecret(secret), tt, 0, covert, !v6, v6, 4, 957, pb.RegistrationSource_API, net.ParseIP("198.51.100.7").To4())
+		w := vWrapper(vSecret(secret), tt, 0, covert, !v6, v6, 4, 957, src, net.ParseIP("198.51.100.7").To4())
+		w.RegistrationPayload.Flags = &pb.RegistrationFlags{Prescanned: proto.Bool(meta.Prescanned), ProxyHeader: proto.Bool(meta.ProxyHeader),
+			UploadOnly: proto.Bool(meta.UploadOnly), DarkDecoy: proto.Bool(meta.DarkDecoy), Use_TIL: proto.Bool(meta.UseTIL)}
 		reg, err := e.rm.NewRegistrationC2SWrapper(w, v6)
 		if err != nil {
 			o.Harness = fmt.Sprintf("cannot build registration: %v", err)
@@ -341,12 +398,19 @@ func c06Session(x *c06IngestEnv, cfg c06Cfg, tmpls []string, v6 bool, secret int
 	fail := func(key, format string, a ...any) {
 		o.Key, o.Msg, o.Nontriv = key, fmt.Sprintf(format, a...), true
 	}
-	nProxy := func() int { return strings.Count(logs.String(), "proxy closed") }
+	// every path through Proxy after its dial ends in exactly one of these two lines
+	nProxy := func() int {
+		l := logs.String()
+		return strings.Count(l, "proxy closed") + strings.Count(l, "failed to send PROXY header")
+	}
 	calls := func() int64 { return atomic.LoadInt64(&x.calls) - callsBefore }
 
 	var v c06Verdict
 	if stored == nil {
 		o.Classes = append(o.Classes, "ingest:no-valid-registration")
+		if meta.Prescanned && src == pb.RegistrationSource_DetectorPrescan {
+			o.Classes = append(o.Classes, "ingest:shared-by-peer-station-refused-here")
+		}
 		// only the must-accept direction can be violated by the decision itself, for the first registration
 		v = c06Judge(subs[0].covert, cfg, "", subs[0].served, prior...)
 	} else {
@@ -362,7 +426,7 @@ func c06Session(x *c06IngestEnv, cfg c06Cfg, tmpls []string, v6 bool, secret int
 		return
 	}
 	if v.Key != "" {
-		fail(v.Key, "after ingestRegistration (coverts %q): %s", coverts, v.Msg)
+		fail(v.Key, "after ingestRegistration (coverts %q, source %s, prescanned=%v): %s", coverts, src, meta.Prescanned, v.Msg)
 		return
 	}
 	if stored == nil {
@@ -533,12 +597,14 @@ type c06IngestCase struct {
 	Script     c06Script `json:"script"`
 	V6         bool      `json:"v6_phantom"`
 	Connecting bool      `json:"connecting_transport,omitempty"`
+	Meta       c06Meta   `json:"meta"`
 	Labels     []string  `json:"labels,omitempty"`
 }
 
 func c06GenIngest(rt *rapid.T) c06IngestCase {
 	c := c06IngestCase{Cfg: c06GenLoopCfg(rt), V6: rapid.Bool().Draw(rt, "v6"), Script: c06GenLoopScript(rt)}
 	c.Connecting = rapid.IntRange(0, 2).Draw(rt, "connecting") == 0
+	c.Meta = c06GenMeta(rt)
 	n := 1
 	if rapid.IntRange(0, 4).Draw(rt, "repeat") == 0 {
 		n = 2
@@ -553,7 +619,7 @@ func c06CheckIngest(t vh.Fataler, rec *vh.Rec, x *c06IngestEnv, c c06IngestCase)
 	c06ResetRegistry(x.e)
 	x.e.rm.RegConfig = c.Cfg.regConfig()
 	x.d.reset(c.Script)
-	o := c06Session(x, c.Cfg, c.Coverts, c.V6, 6, c.Connecting, nil)
+	o := c06Session(x, c.Cfg, c.Coverts, c.V6, 6, c.Connecting, c.Meta, nil)
 	if o.Harness != "" {
 		t.Fatalf("harness problem: %s", o.Harness)
 	}
@@ -570,11 +636,13 @@ func c06CheckIngest(t vh.Fataler, rec *vh.Rec, x *c06IngestEnv, c c06IngestCase)
 }
 
 func TestVerif_C06_ingest(t *testing.T) {
-	rec := vh.NewRec("C06", "ingest", "rapid: 1-2 registrations of one client secret (covert = literal in several textual forms / host name / empty host, port = the port of loopback listeners on 127.0.0.1-3 and ::1; 127.0.0.4-5 have no listener on that port, so the dial of a covert pinned there is refused) x configuration over loopback subnets x resolver script whose answers change between lookups x transport kind (wrapping: the harness hands the registration found for the phantom to Proxy; connecting: a scripted ConnectingTransport registered as DTLS, the station's own handleConnectingTpReg goroutine connects to the client and runs Proxy). Oracle: the stored Covert is judged like a ParseOrResolveBlocklisted result against the covert of the registration that became valid and the DNS queries served during its ingest; a canonical permitted covert must yield a valid registration with the covert unchanged; the station connects exactly once, to the listener whose address is the stored literal, and makes no further DNS query; when the stored literal refuses the connection it connects nowhere and still makes no DNS query; when no registration became valid Proxy is never run and no listener sees a connection. Non-trivial: every case with a valid registration or a forbidden input. Distinct by case")
+	rec := vh.NewRec("C06", "ingest", "rapid: 1-2 registrations of one client secret (covert = literal in several textual forms / host name / empty host, port = the port of loopback listeners on 127.0.0.1-3 and ::1; 127.0.0.4-5 have no listener on that port, so the dial of a covert pinned there is refused) x configuration over loopback subnets x resolver script whose answers change between lookups x registration source (every pb.RegistrationSource value, biased to the shapes stations share with each other) x client flags (prescanned, proxy_header, upload_only, dark_decoy, use_TIL) x phantom family x transport kind (wrapping: the harness hands the registration found for the phantom to Proxy; connecting: a scripted ConnectingTransport registered as DTLS, the station's own handleConnectingTpReg goroutine connects to the client and runs Proxy). Oracle: the stored Covert is judged like a ParseOrResolveBlocklisted result against the covert of the registration that became valid and the DNS queries served during its ingest; a canonical permitted covert must yield a valid registration with the covert unchanged; the station connects exactly once, to the listener whose address is the stored literal, and makes no further DNS query; when the stored literal refuses the connection it connects nowhere and still makes no DNS query; when no registration became valid Proxy is never run and no listener sees a connection. Non-trivial: every case with a valid registration or a forbidden input. Distinct by case")
 	defer rec.Flush()
 	rec.Require("ingest:valid-registration", "ingest:no-valid-registration", "ingest:repeated-registration", "dial:performed", "dial:after-rewrite",
 		"dial:refused", "dial:refused-name-pinned", "dial:refused-name-pinned-answers-change",
 		"ingest:connecting-transport", "connecting:station-dialled", "connecting:refused-and-nothing-dialled",
+		"src:API", "src:Detector", "src:DetectorPrescan", "src:BidirectionalAPI", "src:DNS", "src:BidirectionalDNS", "src:Unspecified", "flag:prescanned", "flag:proxy-header",
+		"ingest:shared-by-peer-station", "ingest:shared-by-peer-station-refused-here",
 		"out:name-accepted", "dns:answers-change-between-lookups", "cfg:allowlist", "in:literal-forbidden")
 	x := c06NewIngestEnv(t)
 	var c c06IngestCase
@@ -595,6 +663,7 @@ type c06HistOp struct {
 	Cfg        *c06Cfg `json:"cfg,omitempty"`    // reload: the new policy
 	V6         bool    `json:"v6_phantom,omitempty"`
 	Connecting bool    `json:"connecting_transport,omitempty"`
+	Meta       c06Meta `json:"meta"` // ingest: registration source and client flags
 }
 
 type c06HistCase struct {
@@ -621,7 +690,7 @@ func c06GenHist(rt *rapid.T) c06HistCase {
 			op = c06HistOp{Kind: "parse", Covert: rapid.IntRange(0, nc-1).Draw(rt, "ci")}
 		default:
 			op = c06HistOp{Kind: "ingest", Covert: rapid.IntRange(0, nc-1).Draw(rt, "ci"), V6: rapid.Bool().Draw(rt, "v6"),
-				Connecting: rapid.IntRange(0, 3).Draw(rt, "connecting") == 0}
+				Connecting: rapid.IntRange(0, 3).Draw(rt, "connecting") == 0, Meta: c06GenMeta(rt)}
 		}
 		c.Ops = append(c.Ops, op)
 	}
@@ -704,7 +773,7 @@ func c06CheckHist(t vh.Fataler, rec *vh.Rec, x *c06IngestEnv, c c06HistCase) {
 			nontriv = nontriv || v.Nontriv
 			key, msg, accepted = v.Key, v.Msg, res != ""
 		case "ingest":
-			o := c06Session(x, cur, []string{tmpl}, op.V6, 100+i, op.Connecting, prior)
+			o := c06Session(x, cur, []string{tmpl}, op.V6, 100+i, op.Connecting, op.Meta, prior)
 			if o.Harness != "" {
 				t.Fatalf("harness problem: %s", o.Harness)
 			}
@@ -737,10 +806,10 @@ func c06CheckHist(t vh.Fataler, rec *vh.Rec, x *c06IngestEnv, c c06HistCase) {
 }
 
 func TestVerif_C06_reload(t *testing.T) {
-	rec := vh.NewRec("C06", "reload", "rapid: histories of 2-10 operations on ONE long-lived RegistrationManager / RegConfig over a pool of 1-3 recurring covert strings: {guard-level admission (ParseOrResolveBlocklisted on the manager), full ingest of a new session (wrapping or connecting transport) followed by the dial as in the ingest sub-check, reload of the policy through OnReload with a freshly parsed RegConfig (what SIGHUP does)}; resolver script shared by the whole history (answers change between lookups). Oracle: every admission is judged by the reference policy for the configuration in force at that moment (an address answered for the same name during an earlier admission also counts as answered). Non-trivial: a covert string is admitted again after a reload. Distinct by history")
+	rec := vh.NewRec("C06", "reload", "rapid: histories of 2-10 operations on ONE long-lived RegistrationManager / RegConfig over a pool of 1-3 recurring covert strings: {guard-level admission (ParseOrResolveBlocklisted on the manager), full ingest of a new session (wrapping or connecting transport, drawn registration source and client flags) followed by the dial as in the ingest sub-check, reload of the policy through OnReload with a freshly parsed RegConfig (what SIGHUP does)}; resolver script shared by the whole history (answers change between lookups). Oracle: every admission is judged by the reference policy for the configuration in force at that moment (an address answered for the same name during an earlier admission also counts as answered). Non-trivial: a covert string is admitted again after a reload. Distinct by history")
 	defer rec.Flush()
 	rec.Require("hist:reload", "hist:readmission-after-reload", "hist:accepted-then-refused-after-reload", "hist:refused-then-accepted-after-reload",
-		"ingest:valid-registration", "dial:performed", "out:name-accepted", "ingest:connecting-transport")
+		"ingest:valid-registration", "dial:performed", "out:name-accepted", "ingest:connecting-transport", "ingest:shared-by-peer-station", "ingest:shared-by-peer-station-refused-here")
 	x := c06NewIngestEnv(t)
 	var c c06HistCase
 	if c06Replay(t, &c) {
